@@ -266,6 +266,126 @@ theorem synced_cluster_ip_frontend_exact (s : Syncer) (st : KState) (hint : AMap
   obtain ⟨eF, eB⟩ := apply_final_exact s st hint fp hok
   exact ⟨v, by rw [eF]; exact h1, h2, h3, fun i hi => by rw [eB]; exact h5 i hi⟩
 
+/-! ### Derived frontends list the same block; the ID hypothesis follows from the bookkeeping -/
+
+/-- every service of the state: its cluster-IP frontend `Set` and, for every derived key, a `Set`
+carrying the same ID, count and local count. -/
+theorem service_derived_recorded (s : Syncer) (st : KState) (hint : AMap SvcKey Nat) (sname : String) (svc : Svc)
+    (hm : (sname, svc) ∈ st.svcs) :
+    ∃ v, (zeroKey svc, v) ∈ (buildDesired s st hint).fwrites ∧
+      v.count = (readyOrdered (epsFor s st sname svc)).length ∧ v.lcl = localReady (epsFor s st sname svc) ∧
+      ∀ k ∈ derivedKeys s svc, ∃ v', (k, v') ∈ (buildDesired s st hint).fwrites ∧
+        v'.id = v.id ∧ v'.count = v.count ∧ v'.lcl = v.lcl := by
+  unfold buildDesired
+  have key : ∀ (l : List (String × Svc)) (b0 : Bld), (sname, svc) ∈ l →
+      ∃ v, (zeroKey svc, v) ∈ (l.foldl (fun b p => applyService s st hint b p.1 p.2) b0).fwrites ∧
+        v.count = (readyOrdered (epsFor s st sname svc)).length ∧ v.lcl = localReady (epsFor s st sname svc) ∧
+        ∀ k ∈ derivedKeys s svc, ∃ v', (k, v') ∈ (l.foldl (fun b p => applyService s st hint b p.1 p.2) b0).fwrites ∧
+          v'.id = v.id ∧ v'.count = v.count ∧ v'.lcl = v.lcl := by
+    intro l
+    induction l with
+    | nil => intro b0 h; simp at h
+    | cons p rest ih =>
+      intro b0 hm'
+      simp only [List.foldl_cons]
+      rcases List.mem_cons.1 hm' with h | h
+      · subst h
+        obtain ⟨id, v, _, h2, hid, hcnt, hl, _, hns⟩ :=
+          applySvc_records3 s.prevSvc hint b0 ⟨sname, .prim⟩ svc (epsFor s st sname svc)
+        have later : ∀ w : FKey × FVal, w ∈ (applyService s st hint b0 sname svc).fwrites →
+            w ∈ (rest.foldl (fun b p => applyService s st hint b p.1 p.2) (applyService s st hint b0 sname svc)).fwrites :=
+          fun w hw => foldl_mono_w _ (fun w b p h => (memw_pres w).applyService h s st hint p.1 p.2) w rest _ hw
+        refine ⟨v, later _ ?_, hcnt, hl, ?_⟩
+        · unfold applyService
+          exact (memw_pres _).applyRest h2 _ _ _ _ _
+        · intro k hk
+          obtain ⟨v', hm1, hs1, hs2, hs3⟩ := applyRest_records s hint _ sname svc (epsFor s st sname svc) _ hns k hk
+          refine ⟨v', later _ (by unfold applyService; exact hm1), ?_, ?_, ?_⟩
+          · rw [hs1, hid]
+          · rw [hs2, hcnt]
+          · rw [hs3, hl]
+      · exact ih _ h
+  exact key st.svcs _ hm
+
+/-- **Exactness of the derived frontends**: in the desired maps of a sync every external-IP,
+LoadBalancer (per source range, if configured) and node-port frontend of a service carries the same
+ID, count and local count as its cluster-IP frontend — i.e. lists the same backend block. -/
+theorem derived_frontends_exact (s : Syncer) (st : KState) (hint : AMap SvcKey Nat) (sname : String) (svc : Svc)
+    (hm : (sname, svc) ∈ st.svcs)
+    (hF : ((buildDesired s st hint).fwrites.map (·.1)).Nodup) :
+    ∃ v, (buildDesired s st hint).des.F.get (zeroKey svc) = some v ∧
+      ∀ k ∈ derivedKeys s svc, ∃ v', (buildDesired s st hint).des.F.get k = some v' ∧
+        v'.id = v.id ∧ v'.count = v.count ∧ v'.lcl = v.lcl := by
+  obtain ⟨v, hw, _, _, hd⟩ := service_derived_recorded s st hint sname svc hm
+  have hf : FOK (buildDesired s st hint) := buildDesired_pres FOK_pres s st hint (fun _ kv h => by simp at h)
+  refine ⟨v, hf hF _ hw, fun k hk => ?_⟩
+  obtain ⟨v', hm', h1, h2, h3⟩ := hd k hk
+  exact ⟨v', hf hF _ hm', h1, h2, h3⟩
+
+/-- **the IDs of one sync are pairwise distinct**: if the previous-sync bookkeeping is well formed, the
+services have distinct names (keys of a Go map) and the fresh IDs are a legal outcome of `newSvcID`
+(distinct, not below `nextSvcID`; the driver's `bad-hint` check), no NAT ID is used by two
+`updateService` calls. -/
+theorem calls_ids_nodup (s : Syncer) (wf : WFPrev s.prevSvc s.nextId) (st : KState) (hint : AMap SvcKey Nat)
+    (hnames : (st.svcs.map (·.1)).Nodup)
+    (hfresh : (buildDesired s st hint).fresh.Nodup ∧ ∀ i ∈ (buildDesired s st hint).fresh, s.nextId ≤ i) :
+    ((buildDesired s st hint).calls.map (·.2.1)).Nodup :=
+  (buildDesired_idInv s wf st hint hnames).ids hfresh
+
+/-- **the next sync inherits a well-formed bookkeeping** (steady state: `prevSvcMap = newSvcMap`). -/
+theorem wfPrev_next (s : Syncer) (wf : WFPrev s.prevSvc s.nextId) (st : KState) (hint : AMap SvcKey Nat)
+    (hnames : (st.svcs.map (·.1)).Nodup) (hfr : freshOk s.nextId (buildDesired s st hint).fresh = true) :
+    WFPrev (buildDesired s st hint).newSvc (buildDesired s st hint).nextId := by
+  obtain ⟨hnd, hrange⟩ := freshGood_of_freshOk hfr
+  have hids := calls_ids_nodup s wf st hint hnames ⟨hnd, fun i hi => (hrange i hi).1⟩
+  have nx := NextInv.buildDesired s st hint
+  have inv := buildDesired_idInv s wf st hint hnames
+  constructor
+  · intro sk info ho hg
+    obtain ⟨eps, hc⟩ := nx.own sk info ho hg
+    rw [nx.nid]
+    rcases inv.cls _ hc with ⟨info', hi', hid'⟩ | hfrm
+    · have := wf.lt sk info' ho hi'
+      simp only at hid'; omega
+    · exact (hrange _ hfrm).2
+  · intro sk1 sk2 i1 i2 ho1 ho2 h1 h2 hne hid
+    obtain ⟨e1, hc1⟩ := nx.own sk1 i1 ho1 h1
+    obtain ⟨e2, hc2⟩ := nx.own sk2 i2 ho2 h2
+    have := nodup_map_inj hids hc1 hc2 hid
+    exact hne (congrArg Prod.fst this)
+
+/-- a syncer that starts on empty bookkeeping is well formed. -/
+theorem wfPrev_empty (n : Nat) : WFPrev [] n :=
+  ⟨fun _ _ _ h => by simp [AMap.get] at h, fun _ _ _ _ _ _ h => by simp [AMap.get] at h⟩
+
+/-- steady state: a synced syncer whose bookkeeping is well formed stays so after any further `Apply`
+(successful or not) on a state with distinct service names and a legal ID hint. -/
+theorem apply_preserves_wf (s : Syncer) (hs : s.synced = true) (wf : WFPrev s.newSvc s.nextId)
+    (st : KState) (hint : AMap SvcKey Nat) (fp : Nat) (hnames : (st.svcs.map (·.1)).Nodup)
+    (hh : (s.apply st hint fp).hintOk = true) :
+    WFPrev (s.apply st hint fp).syncer.newSvc (s.apply st hint fp).syncer.nextId := by
+  unfold Syncer.apply at hh ⊢
+  simp only [hs, if_true] at hh ⊢
+  exact wfPrev_next { s with prevSvc := s.newSvc, prevEps := s.newEps } wf st hint hnames hh
+
+/-- **Exactness without the ID hypothesis**: for a syncer with well-formed bookkeeping, distinct
+service names and a legal ID hint, the cluster-IP frontend of every service lists exactly its ready
+endpoints, local ones first — provided only that no frontend key is `Set` twice (the code's
+"no duplicities" assumption). -/
+theorem cluster_ip_frontend_exact' (s : Syncer) (wf : WFPrev s.prevSvc s.nextId) (st : KState) (hint : AMap SvcKey Nat)
+    (hnames : (st.svcs.map (·.1)).Nodup) (hfr : freshOk s.nextId (buildDesired s st hint).fresh = true)
+    (sname : String) (svc : Svc) (hm : (sname, svc) ∈ st.svcs)
+    (hF : ((buildDesired s st hint).fwrites.map (·.1)).Nodup) :
+    ∃ v, (buildDesired s st hint).des.F.get (zeroKey svc) = some v ∧
+      v.count = (readyOrdered (epsFor s st sname svc)).length ∧ v.lcl = localReady (epsFor s st sname svc) ∧
+      ∀ i (hi : i < (readyOrdered (epsFor s st sname svc)).length),
+        (buildDesired s st hint).des.B.get ⟨v.id, i⟩ =
+          some ⟨(readyOrdered (epsFor s st sname svc))[i].ip, (readyOrdered (epsFor s st sname svc))[i].port⟩ := by
+  obtain ⟨hnd, hrange⟩ := freshGood_of_freshOk hfr
+  obtain ⟨v, h1, h2, h3, _, h5⟩ := cluster_ip_frontend_exact s st hint sname svc hm hF
+    (calls_ids_nodup s wf st hint hnames ⟨hnd, fun i hi => (hrange i hi).1⟩)
+  exact ⟨v, h1, h2, h3, h5⟩
+
 /-! ### Non-vacuity -/
 
 /-- a non-trivial consistent state: one frontend with two backends, one black-hole frontend. -/
@@ -321,6 +441,9 @@ example : ((buildDesired (Syncer.new [7] [] ⟨[], []⟩) (exState [exEp 100 fal
     ((buildDesired (Syncer.new [7] [] ⟨[], []⟩) (exState [exEp 100 false true, exEp 101 true true]) []).calls.map (·.2.1)).Nodup ∧
     (buildDesired (Syncer.new [7] [] ⟨[], []⟩) (exState [exEp 100 false true, exEp 101 true true]) []).fwrites.length = 3 := by
   decide +kernel
+
+/-- the derived keys of the example service: its external IP and its node port on the local address. -/
+example : derivedKeys (Syncer.new [7] [] ⟨[], []⟩) exSvc = [⟨20, 80, 6, 0, 0⟩, ⟨7, 30000, 6, 0, 0⟩] := by decide
 
 /-- a reachable mid-update state (one write of phase 1 done). -/
 example : ∃ σ, Reach ⟨[], []⟩ exDP σ ∧ σ.dp.F.length = 1 :=
